@@ -35,7 +35,7 @@ FLOORS = {'*': {
     'kind:batch-invalid-element': 50, 'kind:batch-empty': 2, 'elem:notify-exception': 20, 'elem:notify-unbound': 20,
     'elem:call-ok': 200, 'elem:call-unbound': 50, 'elem:call-unknown-method': 50, 'elem:call-rpc-error': 50,
     'elem:call-exception': 50, 'flavour:async-plain': 200, 'flavour:sync-inert': 200, 'flavour:async-inert': 200, 'flavour:sync-debuglog': 200, 'flavour:async-debuglog': 200, 'flavour:async-sequential': 200,
-    'metamorphic:batches': 200, 'cfg:sync': 500, 'cfg:async': 500, 'id:str-next-to-int': 10,
+    'metamorphic:batches': 200, 'loops:rounds': 60, 'loops:large-batch-rounds': 16, 'cfg:sync': 500, 'cfg:async': 500, 'id:str-next-to-int': 10,
 }}
 
 CONFIGS = [(a, m) for a in (False, True) for m in (None, 0, 1, 3)]
@@ -70,8 +70,15 @@ def gen(ctx):
         yield from emit(fam, text)
     for fam, text in docs.object_product(rng, exhaustive=False, samples=40000 if deep else 4000):
         yield from emit(fam, text)
+    j = 0
     for fam, text, n in docs.batches(rng, max_exhaustive_len=3 if full else 2, sampled=80000 if deep else 6000, max_len=6 if deep else 5):
         yield from emit(fam, text, n)
+        j += 1
+        if fam == 'batch-large' or j % (40 if deep else 400) == 0:
+            # ONE dispatcher object serving under several event loops in turn (an application that restarts its loop, a test
+            # suite with a loop per test): each round is judged like any other dispatch
+            for concurrent in (True, False):
+                yield 'loops', {'family': fam, 'text': text, 'concurrent': concurrent}
 
 
 def run_doc(ctx, family, text, is_async, max_batch, flavour=None):
@@ -145,6 +152,33 @@ def run_doc(ctx, family, text, is_async, max_batch, flavour=None):
                   returned=o.raw, exception=o.exc, executions=o.calls, all_differences=diffs)
 
 
+def run_loops(ctx, family, text, concurrent):
+    import asyncio
+    info = serverside.TextInfo(text)
+    w = serverside.get_world(True, None, fresh=True, **({} if concurrent else {'concurrent_batch': False}))
+    loops = [asyncio.new_event_loop(), asyncio.new_event_loop()]
+    exp = model.expected(info.doc, None)
+    cls = ('loops', concurrent, text)
+    try:
+        for rnd, which in enumerate((0, 1, 0, 1)):
+            w.loop = loops[which]
+            o = serverside.observe(w, text)
+            ctx.hit('loops:rounds')
+            if isinstance(info.doc, list) and len(info.doc) > 64:
+                ctx.hit('loops:large-batch-rounds')
+            diffs = [d for d in serverside.compare(o, exp, info.doc) if d[0] in ('raise', 'count', 'id', 'kind', 'result', 'exec')]
+            if diffs:
+                aspect, detail = diffs[0]
+                ctx.violation(f'loops:{aspect}:{detail}', family, cls, text=text[:2000], concurrent_batch=concurrent, round=rnd,
+                              loop=which, returned=o.raw, exception=o.exc, executions=len(o.calls), all_differences=diffs)
+                return
+    finally:
+        w.loop = None
+        for lp in loops:
+            lp.close()
+    ctx.ok(family + ':loops', cls, sample={'text': text[:300], 'rounds': 'loop A, B, A, B on one dispatcher', 'concurrent_batch': concurrent})
+
+
 def _strip_data(doc):
     """library-chosen error.data / message texts are not part of the relation"""
     if isinstance(doc, list):
@@ -162,4 +196,4 @@ def _has_lookalike_ids(doc):
     return any(isinstance(i, int) and not isinstance(i, bool) and str(i) in ids for i in ids)
 
 
-KINDS = {'doc': run_doc}
+KINDS = {'doc': run_doc, 'loops': run_loops}
